@@ -250,6 +250,50 @@ def r4_each_child_generated_once(ctx):
     ctx.ob("C02.R4", f"{GEN}::_if_to_py_ast::otherwise the test value is assigned to the temp once", GEN, f.lineno, len(asg) == 1, "" if len(asg) == 1 else "the test value is not assigned to the temporary exactly once")
 
 
+ONE_SHOT = ("chain", "chain.from_iterable", "map", "filter", "zip", "iter", "itertools.chain", "reversed")
+
+
+@rule("C02.R5", floor=40)
+def r5_dependencies_are_reiterable(ctx):
+    """The dependency statements of a GeneratedPyAST are walked more than once (location decorators
+    stamp them, the consumer emits them): every `dependencies=` is a list (list(...), a display, a
+    list variable, another node's .dependencies), never a one-shot iterator -- a chain/map/generator
+    would be exhausted by the first walk and the statements (and their effects) silently dropped."""
+    tree = _gen(ctx)
+    for c in ast.walk(tree):
+        if not (isinstance(c, ast.Call) and P.un(c.func) == "GeneratedPyAST"):
+            continue
+        kw = next((k for k in c.keywords if k.arg == "dependencies"), None)
+        if kw is None:
+            continue
+        v = kw.value
+        fn = P.enclosing_func(c)
+        bad = None
+        if isinstance(v, ast.GeneratorExp):
+            bad = "a generator expression"
+        elif isinstance(v, ast.Call) and P.un(v.func) in ONE_SHOT:
+            bad = f"`{P.un(v.func)}(...)`, a one-shot iterator"
+        elif isinstance(v, ast.Name) and fn is not None:
+            for a in ast.walk(fn):
+                if isinstance(a, ast.Assign) and any(P.un(t) == v.id for t in a.targets) and isinstance(a.value, ast.Call) and P.un(a.value.func) in ONE_SHOT:
+                    bad = f"`{v.id}`, assigned from {P.un(a.value.func)}(...)"
+                if isinstance(a, ast.Assign) and isinstance(a.value, ast.GeneratorExp) and any(P.un(t) == v.id for t in a.targets):
+                    bad = f"`{v.id}`, a generator expression"
+        if bad is not None and fn is not None and fn.name == "__multi_arity_dispatch_fn":
+            # reviewed exemption: an undecorated private helper whose single caller consumes the
+            # stream exactly once inside list(chain(...)); holds only while that stays true
+            callers = [x for x in ast.walk(tree) if isinstance(x, ast.Call) and P.un(x.func).endswith("__multi_arity_dispatch_fn")]
+            if len(callers) == 1 and not fn.decorator_list:
+                ctx.ob("C02.R5", f"{GEN}::{fn.name}::dependencies={P.un(v)[:50]} (consumed once by its only caller)", GEN, c.lineno, True, "reviewed exemption")
+                continue
+        ctx.ob("C02.R5", f"{GEN}::{fn.name if fn else '?'}::dependencies={P.un(v)[:50]}", GEN, c.lineno, bad is None,
+               "" if bad is None else f"dependencies is {bad}: the first consumer (the location-stamping decorator) exhausts it and the hoisted statements never run")
+    ch = ctx.fn(GEN, "_chain_py_ast")
+    rets = [r for r in ast.walk(ch) if isinstance(r, ast.Return)]
+    ok = bool(rets) and all(isinstance(r.value, ast.Tuple) and isinstance(r.value.elts[0], ast.Name) and any(isinstance(a, (ast.Assign, ast.AnnAssign)) and P.un(a.target if isinstance(a, ast.AnnAssign) else a.targets[0]) == r.value.elts[0].id and isinstance(a.value, ast.List) for a in ast.walk(ch)) for r in rets)
+    ctx.ob("C02.R5", f"{GEN}::_chain_py_ast::returns its dependency statements as a list", GEN, ch.lineno, ok, "" if ok else "_chain_py_ast hands out a one-shot iterator of dependency statements")
+
+
 CONDITIONAL_HEADS = {"if", "when", "when-not", "and", "or", "cond", "condp", "case", "if-let", "when-let", "if-not", "if-some", "when-some", "fn", "fn*", "loop", "loop*", "lazy-seq", "delay", "future", "try", "while", "for", "doseq", "dotimes", "quote"}
 
 
